@@ -2,7 +2,9 @@
 Oracle (independent of the Lean model): the bytes produced by the real writer must equal the documented wire format
 computed here (little-endian two's complement, unsigned LEB128 of the 32-bit pattern, LEB128 length prefix + raw bytes),
 an independent Python decoder applied to those bytes must give back the written values, and the real reader's read-back
-must return every written value with Position() advancing by exactly the encoded size."""
+must return every written value with Position() advancing by exactly the encoded size. The harness additionally keeps every
+decoded string / byte slice across Tidy()/Reset() + later writes and overwrites the caller's input buffers after the writes
+(`alias=ok|FAIL ...`): a kept value that changes, or stream bytes that change with the caller's buffer, is a violation."""
 import os
 import random
 import struct
@@ -147,11 +149,14 @@ class C11(Spec):
             "lanes over 00/ff background (quick: 1/2 sample, thorough: all 786432), random; whole blocks of 2^16 consecutive int32 "
             "patterns folded into one CRC per block (quick 20, thorough 64 in the compared script + 2048 more in parallel shards; "
             "VERIF_C11_SWEEP=full sweeps all 2^32); int64 boundary/lane/random; "
-            "bytes/strings with lengths across 127/128, 16383/16384 (thorough also 2^21) and non-UTF-8 content; random typed "
+            "bytes/strings with lengths across 127/128, 16383/16384, 65535/65536/65537, 70000, 2^20 (thorough also 2^21) placed "
+            "behind and in front of other values, non-UTF-8 content; every case also runs the alias phase; random typed "
             "sequences. distinct by script line; non-trivial = at least one value whose encoding has more than one byte")
     trusted_base = ["convert.String/convert.Bytes modelled as identity on the byte sequence (unsafe cast, not verified)",
                     "Go int (positions, lengths) modelled as unbounded naturals: streams shorter than 2^63 bytes"]
-    assumptions = ["len(data) < 2^31 for WriteBytes/WriteString (int32 length prefix)",
+    assumptions = ["aliasing (decoded values / input buffers sharing memory with the stream) is outside the value-semantics Lean "
+                   "model; it is searched for by the harness alias phase and judged by the oracle only (L3)",
+                   "len(data) < 2^31 for WriteBytes/WriteString (int32 length prefix)",
                    "raw stream.Read round trip only for buffers of length >= 1 (Read rejects empty buffers by contract)"]
     shrink_sep = " ; "
 
@@ -169,7 +174,7 @@ class C11(Spec):
             return None
         toks = parse_script(script)
         parts = impl.split(" | ")
-        if len(parts) != 3 or not parts[0].startswith("bytes="):
+        if len(parts) != 4 or not parts[0].startswith("bytes=") or not parts[3].startswith("alias="):
             return ("malformed", "unexpected harness output: " + impl[:200])
         hx = parts[0][6:]
         try:
@@ -213,6 +218,14 @@ class C11(Spec):
         tail = dict(x.split("=") for x in parts[2].split())
         if int(tail["len"]) != len(data) or int(tail["pos"]) != len(data):
             return ("round-trip", "final Len/Position %s, %d bytes were written" % (parts[2], len(data)))
+        # 4. values the caller keeps stay what was written; the stream does not keep the caller's buffers
+        if parts[3] != "alias=ok":
+            what = parts[3][6:]
+            idx = what.rsplit("#", 1)[1] if "#" in what else "?"
+            val = ("%s:%s" % toks[int(idx)])[:60] if idx.isdigit() and int(idx) < len(toks) else "?"
+            return ("aliasing", "value #%s (%s) did not stay equal to what was written / the stream shares memory with the "
+                    "caller: %s (write-input: caller reused its input buffer after the write; tidy+write, reset+write, "
+                    "tidy-memmove: decoded value held across Tidy()/Reset() and later writes)" % (idx, val, what))
         return None
 
     def nontrivial(self, script, impl):
